@@ -416,7 +416,7 @@ class Runtime:
                     self._fire("call-raise-" + f.get("exc", "E1"))
                     raise e
                 kw = list(kwargs.items())
-                dig = core.call_digest(nid, args, kw)
+                dig = core.call_digest(nid, args, kw, self.world.get("_versions", {}).get(nid, 0))
                 ret = n.get("ret", "val")
                 if ret == "val":
                     out = Val(nid, dig)
